@@ -12,13 +12,13 @@ PROP = 'C07'
 DIAG_LINES_ARE_PROPERTY = True
 TARGETS = ['theories/Proofs/UnknownProofs.v', 'theories/Run/RunLoad.v']
 RULE = ('valid documents x every insertion point inside blocks that admit optional sub-elements x unknown payloads: keyword with '
-        'scalar arguments, /begin X .. /end X with nested unknown blocks, comments inside; the payload never reuses a tag of the '
+        'scalar arguments, /begin X .. /end X with nested unknown blocks (also of the same tag X), comments inside; the payload never reuses a tag of the '
         'enclosing block and a bare keyword is not placed behind an open identifier list; each injected document is loaded in both '
         'modes and compared with the base document; non-trivial = every injected case; distinct = distinct text')
 ASSUMPTIONS = ['the base document is valid (loads strictly without diagnostics)']
 
 
-def payload(rng, block, depth=0):
+def payload(rng, block, depth=0, outer_tag=None):
     items = []
     for _ in range(rng.randrange(0, 4)):
         k = rng.randrange(5)
@@ -33,7 +33,9 @@ def payload(rng, block, depth=0):
         else:
             items.append(docgen.Val('ident', '/* c */', '/* in unknown */'))
     if block and depth < 2 and rng.random() < 0.6:
-        items.append(docgen.Node(None, 'UK_INNER_%d' % depth, True, payload=payload(rng, True, depth + 1)))
+        # a nested block, sometimes with the very tag of the unknown block around it (balanced all the same)
+        inner_tag = outer_tag if (outer_tag and rng.random() < 0.35) else 'UK_INNER_%d' % depth
+        items.append(docgen.Node(None, inner_tag, True, payload=payload(rng, True, depth + 1, outer_tag)))
         if rng.random() < 0.4:
             items.append(docgen.Val('int', 7, '7'))
     return items
@@ -65,7 +67,7 @@ def gen_cases(rng, tier):
         rng.shuffle(cands)
         for (n, slot, block) in cands[:per_doc]:
             utag = 'UNKNOWN_%s_%d' % ('BLOCK' if block else 'KW', rng.randrange(100))
-            new = docgen.Node(None, utag, block, payload=payload(rng, block))
+            new = docgen.Node(None, utag, block, payload=payload(rng, block, 0, utag))
             n.kids.insert(slot, new)
             text, _ = docgen.render(node, random.Random(1), lay, sp)
             n.kids.pop(slot)
